@@ -150,6 +150,10 @@ def check(prop, tier, seed, replay=None):
             for i, out in zip(fns, outs):
                 traces.append((out, {"family": "diff", "fn_id": i, "fn": FNS[i][0], "n": cfg["n"], "seed": seed}, FNS[i][2] * cfg["scale"]))
         validate_traces(oc, traces, workdir)
+        by_clause = {}
+        for b, _ in oc.violations:
+            by_clause[b["clause"]] = by_clause.get(b["clause"], 0) + 1
+        V.log(f"C08: rejected checks by clause (before known-finding matching was applied to the rest): {json.dumps(by_clause, sort_keys=True)}")
         calls = {k: v for k, v in oc.cov.items() if k.startswith("call|")}
         skipped = sum(v for k, v in oc.cov.items() if k.startswith("skipped|"))
         judged = sum(v for k, v in oc.cov.items() if k.startswith("clause|") and (".jac" in k or ".hess" in k))
